@@ -327,6 +327,8 @@ pub struct Driver<'a> {
     pub reader_churn: i64,
     /// number of readers of the deterministic prefix (0: none)
     pub ladder_n: usize,
+    /// percent of the steps on an open read-only transaction that attempt a mutator
+    pub ro_mut_pct: i64,
     pub hashes: bool,
     pub p_rollback: u32,
 }
@@ -553,9 +555,30 @@ impl<'a> Driver<'a> {
     }
 
     /// a mutator attempted through a read-only transaction (must fail with ReadOnlyTx)
+    /// every kind of mutating call through the read-only transaction t, on targets that exist and on targets that
+    /// do not (C06: each must fail with the read-only error and change nothing)
+    fn ro_battery(&mut self, t: i64) {
+        let mut paths: Vec<Vec<i64>> = self.buckets.iter().take(5).cloned().collect();
+        paths.push(vec![self.nk - 1]);
+        for q in paths {
+            let (p, k) = (q[..q.len() - 1].to_vec(), q[q.len() - 1]);
+            for c in ["gocb", "mkb", "delb"] {
+                self.do_op(op_json(t, c, &p, k, 0, "U", 0, "U", 0));
+            }
+            for c in ["put", "del", "gocb", "mkb"] {
+                self.do_op(op_json(t, c, &q, 0, 1, "U", 0, "U", 0));
+            }
+        }
+    }
+
     fn ro_mutator(&mut self, t: i64) {
         let p = self.pick_path(true);
-        let k = self.rng.gen_range(0..self.nk);
+        let mut k = self.rng.gen_range(0..self.nk);
+        // half of the time the key names a bucket that exists below p (a mutator that would find its target)
+        let kids: Vec<i64> = self.buckets.iter().filter(|b| b.len() == p.len() + 1 && b[..p.len()] == p[..]).map(|b| b[p.len()]).collect();
+        if !kids.is_empty() && self.rng.gen_bool(0.5) {
+            k = kids[self.rng.gen_range(0..kids.len())];
+        }
         let c = if p.is_empty() {
             ["mkb", "gocb", "delb"][self.rng.gen_range(0..3)]
         } else {
@@ -633,7 +656,11 @@ impl<'a> Driver<'a> {
                             return;
                         }
                     } else if r < 14 && self.readers.len() < self.max_readers {
-                        self.begin(false);
+                        if let Some(rt) = self.begin(false) {
+                            if self.ro_mut_pct > 30 {
+                                self.ro_battery(rt);
+                            }
+                        }
                     } else if self.readers.len() >= 2 && self.rng.gen_range(0..100) < self.reader_churn {
                         // the OLDEST of several readers goes away first: the next writer's release bound
                         // moves into the middle of the pending list
@@ -641,7 +668,7 @@ impl<'a> Driver<'a> {
                         self.end(t, false);
                     } else if r < 22 && !self.readers.is_empty() {
                         let t = self.readers[self.rng.gen_range(0..self.readers.len())];
-                        if self.rng.gen_bool(0.3) {
+                        if self.rng.gen_bool(self.ro_mut_pct as f64 / 100.0) {
                             self.ro_mutator(t);
                         } else if self.rng.gen_bool(0.2) {
                             self.end(t, true); // commit on a read-only tx
@@ -669,7 +696,12 @@ impl<'a> Driver<'a> {
                         self.read_op(t);
                     } else if r < 84 && !self.readers.is_empty() {
                         let rt = self.readers[self.rng.gen_range(0..self.readers.len())];
-                        self.read_op(rt);
+                        // (runs that ask for many read-only mutators also try them while a writer is open)
+                        if self.ro_mut_pct > 30 && self.rng.gen_bool(0.6) {
+                            self.ro_mutator(rt);
+                        } else {
+                            self.read_op(rt);
+                        }
                     } else if self.rng.gen_range(0..100) >= (self.p_rollback * 100 / 16).min(90) {
                         let res = self.end(t, true);
                         if res != json!(["ok"]) {
@@ -821,6 +853,7 @@ fn trace(a: &Args) -> i32 {
             max_readers: a.n("max-readers", 2) as usize,
             reader_churn: a.n("reader-churn", 0),
             ladder_n: a.n("ladder", 0) as usize,
+            ro_mut_pct: a.n("ro-mutators", 30),
             hashes: a.n("hashes", 0) != 0,
             p_rollback: a.n("p-rollback", 6) as u32,
         };
